@@ -27,6 +27,73 @@ def upvar_index(v, closure_path):
     return None
 
 
+def then_form_r2(ctx, r2, rr, hop, ops_i):
+    """R2 when the hop closure is mapped over `operations.into_iter().enumerate()` and the recipient is attached with
+    `(index + 1 == len).then(|| ..)` / `then_some(..)`.  Returns False when the hop's `to` is not of that form."""
+    P = ctx.P
+    acc = rr.acceptor
+    cf, hb, hi, hv, hspan = hop
+    tov = dict(hv[3]).get("to")
+    if not (tov is not None and tov[0] == "call" and isinstance(tov[3], str) and re.search(r"bool::(<impl bool>::)?then(_some)?$", generic_path(tov[3]))):
+        return False
+    where = common.span_of_block_term(cf, tov[2])
+    maps = [P.val_call(acc, acc.body, b) for b, p, fr, t in P.calls(acc) if p and common.last_seg(p) == "map" and "Iterator" in p]
+    maps = [v for v in maps if v[4][1][0] == "agg" and v[4][1][2] == cf.path]
+    if len(maps) != 1:
+        r2.fail("C13.R2:map", acc.path, acc.span, "hop closure is not applied through a single Iterator::map: unrecognised-idiom")
+        return True
+    ads, kind, src = common.iter_chain(maps[0][4][0])
+    if [a for a, _ in ads] != ["enumerate"] or kind != "into_iter" or set(ctx.roots(src)) != {P_(acc, ops_i)}:
+        r2.fail("C13.R2:iteration", acc.path, common.span_of_block_term(acc, maps[0][2]), "hops are not generated one per operation in route order (adaptors %s)" % [a for a, _ in ads])
+        return True
+    r2.site("closure mapped over operations.into_iter().enumerate() without other adaptors")
+
+    def strip(v):
+        while v[0] == "cast" or (v[0] == "proj" and v[2] == ("f", 0) and v[1][0] == "binop"):
+            v = v[2] if v[0] == "cast" else v[1]
+        return v
+
+    def is_index(v):
+        return v == ("proj", ("param", cf.path, 1), ("f", 0))
+
+    def is_len(v):
+        rs = set(ctx.roots(v))
+        if len(rs) != 1 or not list(rs)[0].startswith("C:std::vec::Vec::len@%s:" % acc.path):
+            return False
+        k = upvar_index(v, cf.path)
+        site = P.closure_site(cf.path)
+        if k is None or site is None:
+            return False
+        pf, sb, si, srv = site
+        lv = P.val_operand(pf, (sb, si), srv["ops"][k], pf.body)
+        lens = [x for x in common.walk(lv) if x[0] == "call" and isinstance(x[3], str) and generic_path(x[3]).endswith("Vec::len")]
+        return len(lens) == 1 and set(ctx.roots(lens[0][4][0])) == {P_(acc, ops_i)}
+    cond = strip(tov[4][0])
+    ok = False
+    if cond[0] == "binop" and cond[1] == "Eq":
+        a, b_ = strip(cond[2]), strip(cond[3])
+        for x, y in ((a, b_), (b_, a)):
+            if x[0] == "binop" and x[1] in ("Add", "AddWithOverflow") and is_len(y):
+                p, q = strip(x[2]), strip(x[3])
+                if (is_index(p) and q == ("const", "int", 1)) or (is_index(q) and p == ("const", "int", 1)):
+                    ok = True
+            if is_index(x) and y[0] == "binop" and y[1] in ("Sub", "SubWithOverflow") and is_len(strip(y[2])) and strip(y[3]) == ("const", "int", 1):
+                ok = True
+    if not ok:
+        r2.fail("C13.R2:guard-operands", cf.path, where, "the recipient is attached under %s; expected `index + 1 == operations.len()` (or `index == len - 1`) for the enumerate index" % ctx.show(cond, 4)[:200])
+        return True
+    r2.site("last-hop test `index + 1 == operations.len()` on the enumerate index at %s" % where)
+    r2.site("compared with operations.len() of the same route")
+    r2.site("`to` = Some(..) exactly when the test holds (bool::then), None otherwise")
+    # the hop message is built on every call of the closure
+    conds = [c for c in common.control_conditions(P, cf, hb) if not (c["cond"][0] == "discr" and c["allowed"] in (["Continue"], ["Ok"]))]
+    if conds:
+        r2.fail("C13.R2:conditional-hop", cf.path, hspan.replace("!x", ""), "a hop message is skipped under some condition")
+    else:
+        r2.site("one hop message per operation, unconditionally")
+    return True
+
+
 def loop_form_r2(ctx, r2, rr, hop, ops_i):
     """R2 when the hop messages are produced by `for (i, op) in operations.into_iter().enumerate()` (possibly through a
     message-building helper): `to` is Some exactly when i + 1 == len (or i == len - 1)."""
@@ -151,6 +218,8 @@ def _run(ctx):
         loop_form_r2(ctx, r2, rr, hops[0], ops_i)
     elif len(hops) != 1:
         r2.fail("C13.R2:hop-site", acc.path, acc.span, "expected the hop message to be built at exactly one site; found %s: unrecognised-idiom" % [h[0].path for h in hops])
+    elif then_form_r2(ctx, r2, rr, hops[0], ops_i):
+        pass
     else:
         cf, hb, hi, hv, hspan = hops[0]
         site = P.closure_site(cf.path)
@@ -337,7 +406,7 @@ def _run(ctx):
         else:
             l = lps[0]
             ads, kind, src = common.iter_chain(l["iter"])
-            if ads or kind != "iter" or set(ctx.roots(src)) != {P_(vf, 0)}:
+            if ads or kind not in ("iter", "into_iter") or set(ctx.roots(src)) != {P_(vf, 0)}:      # `for op in ops.iter()` / `for op in ops` over the &[T] parameter
                 r4.fail("C13.R4:validator-iteration", vf.path, common.span_of_block_term(vf, l["next_bb"]), "validator does not visit every operation in order (adaptors %s)" % [a for a, _ in ads])
             rm = ins = None
             others = []
@@ -367,22 +436,34 @@ def _run(ctx):
                     r4.fail("C13.R4:validator-conditional", vf.path, common.span_of_block_term(vf, rm[0]), "remove/insert are not executed on every iteration")
                 else:
                     r4.site("per operation: remove(offer) then insert(ask), unconditionally")
-            # exit test
+            # exit test: every success exit is control-dependent on `len(dangling outputs) == 1`, tested after the loop
+            # (if / early-return on `!= 1`, or `match len { 1 => Ok, _ => Err }`)
             exit_ok = False
-            for g in common.bool_guards(P, vf):
-                c = g.cond
-                if c[0] == "cmp" and c[1] in ("eq", "ne") and len(c[2]) == 2:
-                    rs = [set(ctx.roots(x)) for x in c[2]]
-                    if {"K:1"} in rs:
-                        other = c[2][0] if rs[1] == {"K:1"} else c[2][1]
-                        lens = [x for x in common.walk(other) if x[0] == "call" and isinstance(x[3], str) and common.last_seg(x[3]) == "len"]
-                        if lens:
-                            eq_edge, ne_edge = g.edge(c[1] == "eq"), g.edge(c[1] != "eq")
-                            ok, why = common.fail_edge_only_errors(P, vf, ne_edge)
-                            oks = common.ok_exit_blocks(P, vf)
-                            if ok and all(vbody.edge_dominates(eq_edge, b) for (b, i, cls, v) in oks) and vbody.edge_dominates(l["none_edge"], g.b):
-                                exit_ok = True
-                                r4.site("after the loop: len(dangling outputs) != 1 => Err at %s" % common.span_of_block_term(vf, g.b))
+            oks = common.ok_exit_blocks(P, vf)
+            n_ok = 0
+            for (ob, oi, ocls, ov) in oks:
+                hit = None
+                for c in common.control_conditions(P, vf, ob):
+                    cd = c["cond"]
+                    if not vbody.edge_dominates(l["none_edge"], c["sw"]):
+                        continue
+                    if cd[0] == "cmp" and cd[1] in ("eq", "ne") and len(cd[2]) == 2:
+                        rs = [set(ctx.roots(x)) for x in cd[2]]
+                        if {"K:1"} in rs:
+                            other = cd[2][0] if rs[1] == {"K:1"} else cd[2][1]
+                            lens = [x for x in common.walk(other) if x[0] == "call" and isinstance(x[3], str) and common.last_seg(x[3]) == "len"]
+                            if lens and c["allowed"] == [cd[1] == "eq"]:
+                                hit = c
+                    elif cd[0] in ("val", "discr"):
+                        val = cd[1]
+                        lens = [x for x in common.walk(val) if x[0] == "call" and isinstance(x[3], str) and common.last_seg(x[3]) == "len"]
+                        if lens and [str(a) for a in c["allowed"]] == ["1"]:
+                            hit = c
+                if hit is not None:
+                    n_ok += 1
+            if oks and n_ok == len(oks):
+                exit_ok = True
+                r4.site("after the loop: len(dangling outputs) != 1 => Err (every success exit requires == 1)")
             if not exit_ok:
                 r4.fail("C13.R4:validator-exit", vf.path, vf.span, "validator does not reject routes whose number of dangling output assets differs from 1")
 
